@@ -148,6 +148,10 @@ func (r *rec) do(th int, c call) {
 		n = r.s.AddSet(setOf(c.v))
 	case "RemoveSet":
 		n = r.s.RemoveSet(setOf(c.v))
+	case "AddSelf": // the set passed to itself
+		n = r.s.AddSet(r.s)
+	case "RemoveSelf":
+		n = r.s.RemoveSet(r.s)
 	case "Len":
 		n = r.s.Len()
 	}
@@ -167,6 +171,22 @@ func (r *rec) do(th int, c call) {
 		// the set-up) before a RemoveSet, so each of them contributes exactly one to the count
 		g.Count = n - c.v>>2
 		r.padAfter[th] = append(r.padAfter[th], [2]int{c.v >> 2, map[string]int{"Add": 1, "Remove": 0}[kind]})
+		r.groups[th] = append(r.groups[th], g)
+	case "AddSelf", "RemoveSelf":
+		// one pseudo-operation per modelled value (whether the value is among the operand's members at
+		// the moment it is reached is part of what the linearization decides)
+		// RemoveSet(self): an ordinary Remove per value (a value present during the whole call is met by
+		// the walk and removed). AddSet(self): "AddIfMember" per value (see lib/lin).
+		kind := "Remove"
+		if c.op == "AddSelf" {
+			kind = "AddIfMember"
+		}
+		var g lin.Group
+		for v := 0; v < nvals; v++ {
+			g.Idx = append(g.Idx, len(r.ops[th]))
+			r.ops[th] = append(r.ops[th], lin.Op{Kind: kind, Key: v, Thread: th*10 + 100 + v, Inv: inv, Ret: ret})
+		}
+		g.Count = n
 		r.groups[th] = append(r.groups[th], g)
 	case "Len":
 		var g lin.Group
@@ -448,6 +468,25 @@ func main() {
 			}
 		}
 	}
+	// the set passed to itself (RemoveSet(s) on s empties it, AddSet(s) changes nothing) against single
+	// calls and two-call programs of another thread, from every layout
+	for _, li := range layouts {
+		for _, self := range []call{{"RemoveSelf", 0}, {"AddSelf", 0}} {
+			scs = append(scs, scenario(li, [][]call{{self}}, -1, -2))
+			for _, b := range []call{{"Add", 0}, {"Remove", 0}, {"Add", 1}, {"Has", 0}, {"Len", 0}} {
+				scs = append(scs, scenario(li, [][]call{{self}, {b}}, -1, ev.Pick(r, -2, 1)))
+			}
+		}
+	}
+	for i, li := range layouts {
+		if i%ev.Pick(r, 6, 2) != 0 {
+			continue
+		}
+		for _, other := range [][]call{{{"Add", 0}, {"Remove", 0}}, {{"Remove", 0}, {"Add", 0}}, {{"Add", 1}, {"Len", 0}}, {{"Remove", 1}, {"Has", 1}}} {
+			scs = append(scs, scenario(li, [][]call{{{"RemoveSelf", 0}}, other}, ev.Pick(r, 3, -1), -2))
+		}
+		scs = append(scs, scenario(li, [][]call{{{"RemoveSelf", 0}}, {{"Add", 0}}, {{"Remove", 0}}}, ev.Pick(r, 2, 3), -2))
+	}
 	// large operands: AddSet / RemoveSet of 32, 33 (64, 200) values, one or both of the modelled values
 	// among them, against a thread that adds / removes a modelled value and forces a promotion (Len)
 	{
@@ -475,7 +514,7 @@ func main() {
 		return map[string]int64{"distinct_histories_judged_by_porcupine": int64(lin.Distinct())}
 	}
 	schk.Main(r, scs, ev.Pick(r, 45*time.Second, 1200*time.Second), func(r *ev.Run) {
-		r.Set("rule", "controlled scheduler over the instrumented sync2 package; programs of Add/Remove/Has/AddSet/RemoveSet/Len over values {a,b} from EVERY reachable concrete layout of a 2-value set (computed by explicit-state search; a spread-out subset for the larger programs): every pair of single calls under ALL interleavings, multisets of three single calls, pairs of two-call programs (and four single calls) under a preemption bound; AddSet/RemoveSet with operands of 32/33 (thorough: 31..200) values against Add/Remove/Len programs of another thread; oracle: porcupine set model with AddSet/RemoveSet/Len decomposed into per-element pseudo-operations inside the call's interval whose successes must add up to the returned count, final Has/Len/Slice after quiescence, and the derived accounting #successful Adds - #successful Removes = final - initial membership; pair scenarios also under the race detector inside every explored schedule")
+		r.Set("rule", "controlled scheduler over the instrumented sync2 package; programs of Add/Remove/Has/AddSet/RemoveSet/Len over values {a,b} from EVERY reachable concrete layout of a 2-value set (computed by explicit-state search; a spread-out subset for the larger programs): every pair of single calls under ALL interleavings, multisets of three single calls, pairs of two-call programs (and four single calls) under a preemption bound; AddSet/RemoveSet with operands of 32/33 (thorough: 31..200) values against Add/Remove/Len programs of another thread; the set passed to itself (s.RemoveSet(s), s.AddSet(s)) against single calls and two-call programs; oracle: porcupine set model with AddSet/RemoveSet/Len decomposed into per-element pseudo-operations inside the call's interval whose successes must add up to the returned count, final Has/Len/Slice after quiescence, and the derived accounting #successful Adds - #successful Removes = final - initial membership; pair scenarios also under the race detector inside every explored schedule")
 		r.Assume("more than 4 goroutines are outside the bound")
 	})
 }
